@@ -1,8 +1,8 @@
 (** C13 — Generate fails only when the recipe cannot be honoured: an error, never a panic
     (character recipes; the wordlist part is in C13wl below once WordGen is loaded). *)
 From Spg.Base Require Import Prelude Utf8 Bytes.
-From Spg.Model Require Import Tables Rand GenM CharSets CharGen.
-From Spg.Proofs Require Import RandProofs SetProofs CountProofs GenProofs CharGenProofs AcceptProofs.
+From Spg.Model Require Import Tables Rand GenM CharSets CharGen Token WordList WordGen.
+From Spg.Proofs Require Import RandProofs SetProofs CountProofs GenProofs CharGenProofs AcceptProofs WordGenProofs.
 From Coq Require Import QArith.
 
 (** The decision: bad length, else empty alphabet, else the pre-flight check,
@@ -65,6 +65,28 @@ Theorem C13_attempts_bounded : forall (C : Type) (att : gen C) ok,
   forall T, retry (S T) att ok = bind att (fun c => if ok c then Ret (Done c) else retry T att ok).
 Proof. intros. split; reflexivity. Qed.
 
+(** Wordlist recipes: a missing (nil) or empty list, or a non-positive length,
+    gives an error; anything else generates; never a panic from the generator
+    itself (zero-valued WLRecipe{} is the nil-list instance; known finding F5). *)
+Theorem C13_wordlist_outcomes : forall title b r o, reach (wl_generate title b r) o ->
+  match o with
+  | Err ENoList => wl_size r = 0%nat
+  | Err EBadLength => wl_size r <> 0%nat /\ (wrLength r < 1)%Z
+  | Done (ts, e) => wl_size r <> 0%nat /\ (1 <= wrLength r)%Z
+  | Err _ => False
+  | Panic _ => False
+  end.
+Proof.
+  intros title b r o H. apply wl_generate_reach in H. destruct o as [[ts e]|e|p]; [|exact H|exact H].
+  destruct H as (wl & caps & idxs & seps & Hl & Hne & HL & _). unfold wl_size. rewrite Hl.
+  split; [|exact HL]. destruct (wlWords wl); [congruence|discriminate].
+Qed.
+Example C13_wordlist_examples :
+  wl_generate title_ascii default_budget (mkWLR None 3 (SepChar []) CapNone) = Ret (Err ENoList) /\
+  wl_generate title_ascii default_budget (mkWLR (Some (mkWL [] 0)) 3 (SepChar []) CapNone) = Ret (Err ENoList) /\
+  wl_generate title_ascii default_budget (mkWLR (Some (mkWL [[97]%N] 0)) 0 (SepChar []) CapNone) = Ret (Err EBadLength).
+Proof. repeat split. Qed.
+
 (** Non-vacuity: the recipe of known finding F1 is accepted and generates; an
     impossible one is refused; zero-valued recipes give the length error. *)
 Example C13_examples :
@@ -83,3 +105,4 @@ Print Assumptions C13_guard_band_refuse.
 Print Assumptions C13_decision_exact.
 Print Assumptions C13_impossible_refused.
 Print Assumptions C13_attempts_bounded.
+Print Assumptions C13_wordlist_outcomes.
